@@ -435,6 +435,10 @@ var rulePlainReturns = &core.Rule{ID: "R11.3", Min: 4,
 					s.OK(key, c.Pos(r.Pos()), "no charset")
 				case "utf-8":
 					under := (p.valid != nil && dominatedByCallEdge(r.Block(), p.valid, true)) || (p.ascii != nil && dominatedByCallEdge(r.Block(), p.ascii, true))
+					if !under && p.valid == nil && handWrittenUTF8(p) {
+						s.Und(key+" utf-8", c.Pos(r.Pos()), "the sniffer does not call utf8.Valid but decodes runes itself: whether that amounts to validation is not decided here")
+						continue
+					}
 					s.Check(under, key+" utf-8", c.Pos(r.Pos()), "under utf8.Valid or the ASCII test", "return \"utf-8\" that is not conditional on UTF-8 validation or on the ASCII test")
 				default:
 					s.Bad(key, c.Pos(r.Pos()), fmt.Sprintf("constant charset %q returned by the plain sniffer outside the BOM / UTF-8 / Latin scheme", k))
@@ -451,6 +455,33 @@ var rulePlainReturns = &core.Rule{ID: "R11.3", Min: 4,
 			}
 		}
 	}}
+
+// handWrittenUTF8: the plain sniffer (or a helper it calls) decodes runes with
+// unicode/utf8 functions other than Valid / FullRune.
+func handWrittenUTF8(p *plainParts) bool {
+	seen := map[*ssa.Function]bool{}
+	var rec func(f *ssa.Function, d int) bool
+	rec = func(f *ssa.Function, d int) bool {
+		if f == nil || f.Blocks == nil || seen[f] || d > 2 {
+			return false
+		}
+		seen[f] = true
+		for _, ci := range core.Calls(f) {
+			g := ci.Common().StaticCallee()
+			if g == nil {
+				continue
+			}
+			if g.Pkg != nil && g.Pkg.Pkg.Path() == "unicode/utf8" && g.Name() != "Valid" && g.Name() != "FullRune" && g.Name() != "ValidString" {
+				return true
+			}
+			if core.InMod(g) && rec(g, d+1) {
+				return true
+			}
+		}
+		return false
+	}
+	return rec(p.f, 0) || rec(p.g, 0)
+}
 
 // R11.4
 var ruleASCIIClass = &core.Rule{ID: "R11.4", Min: 256,
@@ -502,6 +533,10 @@ var ruleTrim = &core.Rule{ID: "R11.5", Min: 2,
 	Run: func(c *core.Ctx, s *core.Sink) {
 		p := getPlain(c)
 		if p.valid == nil {
+			if handWrittenUTF8(p) {
+				s.Und("utf8.Valid call", c.Pos(p.f.Pos()), "the sniffer does not call utf8.Valid but decodes runes itself: whether that amounts to validation of the input minus a cut-off final rune is not decided here")
+				return
+			}
 			s.Bad("utf8.Valid call", c.Pos(p.f.Pos()), "the plain sniffer never validates UTF-8")
 			return
 		}
